@@ -10,6 +10,7 @@ Results: <outdir>/results.tsv  (mutant, file:line, operator, suite, detected-by 
 import os, random, re, subprocess, sys, json, shutil
 
 REPO = "/repo"
+VERIF = os.path.dirname(os.path.dirname(os.path.abspath(__file__)))
 FILES = {
     "trie/slimtrie_query.go": ["C01", "C03", "C10", "C09", "C02"],
     "trie/slimtrie_create.go": ["C01", "C08", "C13", "C05", "C17", "C03"],
@@ -137,7 +138,7 @@ def run(outdir, first, last):
                     det = "SURVIVED"
                     for prop in FILES[meta["file"]]:
                         try:
-                            c = subprocess.run(["./check", prop, "quick"], cwd="/verif", env=dict(os.environ, SLIM_REPO=wt),
+                            c = subprocess.run(["./check", prop, "quick"], cwd=VERIF, env=dict(os.environ, SLIM_REPO=wt),
                                                stdout=subprocess.PIPE, stderr=subprocess.STDOUT, universal_newlines=True, timeout=2400)
                         except subprocess.TimeoutExpired:
                             det = "TIMEOUT:" + prop
